@@ -11,23 +11,23 @@ def c15(tier):
     runs = []
     if tier == "quick":
         for t in TOPOS_QUICK:
-            runs.append(H("c15_collections", "plain", 600, t, timeout_per_case=20))
+            runs.append(H("c15_collections", "plain", 500, t, timeout_per_case=20))
         # reset(begin,end): 50 cases x 4 sizes = every size 1..200, every (begin,end) pair, 2 fill patterns
         runs.append(H("c15_collections", "plain", 50, None, params=dict(only=EXH, band=4), timeout_per_case=30))
         runs.append(H("c15_collections", "asan", 50, None, params=dict(only=EXH, band=4), timeout_per_case=60))
         for t in ("4,4,4,4", None):
-            runs.append(H("c15_collections", "asan", 300, t, timeout_per_case=40))
+            runs.append(H("c15_collections", "asan", 250, t, timeout_per_case=40))
     else:
         for t in TOPOS_THOROUGH:
-            runs.append(H("c15_collections", "plain", 3000, t, timeout_per_case=20))
+            runs.append(H("c15_collections", "plain", 1000 if t == "12,12,8" else 2500, t, timeout_per_case=20))
         runs.append(H("c15_collections", "plain", 100, None, params=dict(only=EXH, band=2), timeout_per_case=30))
         runs.append(H("c15_collections", "asan", 100, None, params=dict(only=EXH, band=2), timeout_per_case=60))
         for t in (None, "4,4,4,4", "3,5", "smt:2x2x2"):
-            runs.append(H("c15_collections", "asan", 1200, t, timeout_per_case=40))
+            runs.append(H("c15_collections", "asan", 1000, t, timeout_per_case=40))
         for t in ("4,4,4,4", None):
             runs.append(H("c15_collections", "tsan", 500, t, timeout_per_case=90, env=TSAN_ENV))
         # few CPUs, many threads: long preemptions inside CAS loops / between per-thread updates and reduce
-        runs.append(H("c15_collections", "plain", 600, "12,12,8", cpus=3, timeout_per_case=60))
+        runs.append(H("c15_collections", "plain", 300, "12,12,8", cpus=3, timeout_per_case=90))
     return runs
 
 
